@@ -691,10 +691,29 @@ fn w_contract(ctx: &mut Ctx) {
                     }
                 }
                 let m = d.to_csc();
-                ctx.eval(1);
-                match catch(move || QDLDLFactorisation::<f64>::new(&m, None).map(|_| ())) {
-                    Ok(Err(QDLDLError::NotUpperTriangular)) => ctx.bump("err_not_triu"),
-                    other => ctx.violation("contract:not-triu", "contract:not-triu", wl2, case, json!({"lower_bits": bits, "got": format!("{other:?}")})),
+                // the same matrix with the entries of every column stored in reverse / rotated order: where an
+                // entry sits inside its column must not matter for the triangularity test
+                let mut variants = vec![("sorted", m.clone())];
+                for (name, rot) in [("reversed", 0usize), ("rotated", 1usize)] {
+                    let mut v = m.clone();
+                    for j in 0..v.n {
+                        let (a, b) = (v.colptr[j], v.colptr[j + 1]);
+                        if rot == 0 {
+                            v.rowval[a..b].reverse();
+                            v.nzval[a..b].reverse();
+                        } else if b - a > 1 {
+                            v.rowval[a..b].rotate_left(1);
+                            v.nzval[a..b].rotate_left(1);
+                        }
+                    }
+                    variants.push((name, v));
+                }
+                for (vname, m) in variants {
+                    ctx.eval(1);
+                    match catch(move || QDLDLFactorisation::<f64>::new(&m, None).map(|_| ())) {
+                        Ok(Err(QDLDLError::NotUpperTriangular)) => ctx.bump("err_not_triu"),
+                        other => ctx.violation("contract:not-triu", &format!("contract:not-triu:{vname}"), wl2, case, json!({"lower_bits": bits, "column_order": vname, "got": format!("{other:?}")})),
+                    }
                 }
             }
             ctx.nontrivial_n(1);
